@@ -3,7 +3,10 @@
 //!
 //! usage: fir-harness <property> --seed N --tier quick|thorough --out DIR
 
+mod c04;
 mod c06;
+mod c14;
+mod views;
 mod c17;
 mod util;
 
@@ -46,7 +49,9 @@ fn main() {
     silence_panics();
     let mut out = Out::new();
     match cmd.as_str() {
+        "C04" => c04::generate(&mut out, seed, thorough),
         "C06" => c06::generate(&mut out, seed, thorough),
+        "C14" => c14::generate(&mut out, seed, thorough),
         "C17" => c17::generate(&mut out, seed, thorough),
         other => {
             eprintln!("unknown property {}", other);
